@@ -10,12 +10,16 @@ EXT, EXP = 1, 2
 
 
 # ------------------------------------------------------------------ virtual time
+MAX_WALL = 30.0      # seconds of processor time a single simulation may take (checks with long runs raise it)
+
+
 class Deadlock(Exception):
     pass
 
 
 class VLoop(asyncio.SelectorEventLoop):
     """time() is virtual: when nothing is ready the clock jumps to the next timer."""
+    runaways = 0
 
     def __init__(self):
         super().__init__()
@@ -26,6 +30,10 @@ class VLoop(asyncio.SelectorEventLoop):
         self.max_steps = 60_000
         self._last_vt, self._steps_at_vt = -1.0, 0
         self.step_hook = None
+        self._wall0 = None
+        # seconds of processor time one simulation of the sizes generated here never needs; once one run has been cut off
+        # the others get less, so that a check still ends in reasonable time
+        self.max_wall = MAX_WALL if VLoop.runaways == 0 else 6.0
 
     def time(self):
         return self.vt
@@ -42,6 +50,13 @@ class VLoop(asyncio.SelectorEventLoop):
             # no simulation of the sizes generated here needs this many loop iterations at one instant:
             # something keeps itself busy without (virtual) time passing
             raise Deadlock("livelock: %d event-loop iterations without time passing" % self._steps_at_vt)
+        if self.steps % 512 == 1:
+            import time as _t
+            if self._wall0 is None:
+                self._wall0 = _t.monotonic()
+            elif _t.monotonic() - self._wall0 > self.max_wall:
+                VLoop.runaways += 1
+                raise Deadlock("runaway: the simulation keeps the event loop busy for more than %d s (%d iterations)" % (self.max_wall, self.steps))
         if self.step_hook is not None:
             self.step_hook(self)
         if not self._ready:
@@ -56,13 +71,32 @@ class VLoop(asyncio.SelectorEventLoop):
 def vrun(coro_fn):
     import tickit.core.management.schedulers.master as m
 
+    if VLoop.runaways >= 2:
+        # two simulations of this check have already been cut off: the others are not run (the check reports the first)
+        raise Deadlock("not run: earlier simulations of this check kept the event loop busy without end")
     loop = VLoop()
     asyncio.set_event_loop(loop)
     old = m.time_ns
     m.time_ns = loop.time_ns
+    import signal
+
+    class Runaway(KeyboardInterrupt):      # not an Exception: neither asyncio nor the code under test swallows it
+        pass
+
+    def alarm(signum, frame):
+        VLoop.runaways += 1
+        raise Runaway()
+
+    old_handler = signal.signal(signal.SIGALRM, alarm)
+    signal.setitimer(signal.ITIMER_REAL, loop.max_wall + 5)    # a single event-loop iteration that never returns
     try:
-        return loop.run_until_complete(coro_fn(loop))
+        try:
+            return loop.run_until_complete(coro_fn(loop))
+        except Runaway:
+            raise Deadlock("runaway: one event-loop iteration of the simulation does not return (handlers calling each other without end)")
     finally:
+        signal.setitimer(signal.ITIMER_REAL, 0)
+        signal.signal(signal.SIGALRM, old_handler)
         m.time_ns = old
         try:
             for t in asyncio.all_tasks(loop):
@@ -117,6 +151,8 @@ def table_dev(params, c, n, time, inputs):
         ca = time + period * (1 + h2 % 3) if h2 % 5 < 3 else None
     elif policy == 4:
         ca = time + 3 * period if n % 2 == 1 else time + period
+    elif policy == 5:
+        ca = time if n % 2 == 1 else time + period     # re-evaluation at once: a callback at the time of this very update
     else:
         ca = None
     return outs, ca
@@ -345,7 +381,7 @@ def run_internal(cfg, devs, speed=(1, 1), initial=0, stim=(), t_end=3_000_000_00
             lv = 1
             mticks.append((t, real))
         else:
-            lv = sys_level[cid(owner.name)]
+            lv = sys_level.get(cid(owner.name), 999)     # a scheduler owned by something that is no system simulation of the configuration
         ticklog.append((lv, t, roots))
     return dict(per=per, trace=[(c, t, dict(i)) for (c, t, i) in TRACE], trace_rt=list(TRACE_RT), ticklog=ticklog,
                 mticks=mticks, inj=info.get("inj"), steps=info.get("steps"),
@@ -459,11 +495,14 @@ def r_stim(cfg, stim):
 
 
 def render_sim_case(cfg, devs, speed, initial, stim, t_end, run, pre=()):
+    # no simulation generated here makes more than a few hundred updates: a run that made thousands is cut (it differs from
+    # the model anyway) so that a runaway implementation yields a comparison, not a term Coq cannot read
+    CAP = 1200
     per = run["per"]
-    obs = L(T(P(c), L(T(Zr(t), r_values(i)) for t, i in per.get(c, []))) for c in sorted(devices_of(cfg)))
-    trace = L(T(P(c), Zr(t), r_values(i)) for (c, t, i) in run["trace"])
-    ticklog = L(T(P(lv), Zr(t), L(P(r) for r in roots)) for (lv, t, roots) in run["ticklog"])
-    mticks = L(T(Zr(t), Zr(r)) for (t, r) in run["mticks"])
+    obs = L(T(P(c), L(T(Zr(t), r_values(i)) for t, i in per.get(c, [])[:CAP])) for c in sorted(devices_of(cfg)))
+    trace = L(T(P(c), Zr(t), r_values(i)) for (c, t, i) in run["trace"][:CAP])
+    ticklog = L(T(P(lv), Zr(t), L(P(r) for r in roots)) for (lv, t, roots) in run["ticklog"][:CAP])
+    mticks = L(T(Zr(t), Zr(r)) for (t, r) in run["mticks"][:CAP])
     return ("{| sc_cfg := %s; sc_devs := %s; sc_num := %s; sc_den := %s; sc_initial := %s; sc_pre := %s; sc_stim := %s; "
             "sc_end := %s; sc_observed := %s; sc_trace := %s; sc_ticklog := %s; sc_mticks := %s |}") % (
         r_config(cfg), r_devs(devs), Zr(speed[0]), Zr(speed[1]), Zr(initial), L(P(c) for c in pre), r_stim(cfg, stim), Zr(t_end), obs,
